@@ -233,7 +233,13 @@ pub unsafe fn unlock_all_writes(locks: &[&dyn RawLock]) {
 	for lock in locks {
 		// safety: the caller assumes that these are already locked
 		if let Err(e) = catch_unwind(AssertUnwindSafe(|| lock.raw_unlock_write())) {
-			panic.get_or_insert(e);
+			if panic.is_none() {
+				panic = Some(e);
+			} else {
+				// a surplus payload is not dropped here: its destructor could
+				// panic, which would end this loop with locks still held
+				std::mem::forget(e);
+			}
 		}
 	}
 	if let Some(e) = panic {
@@ -249,7 +255,13 @@ pub unsafe fn unlock_all_reads(locks: &[&dyn RawLock]) {
 	for lock in locks {
 		// safety: the caller assumes that these are already locked
 		if let Err(e) = catch_unwind(AssertUnwindSafe(|| lock.raw_unlock_read())) {
-			panic.get_or_insert(e);
+			if panic.is_none() {
+				panic = Some(e);
+			} else {
+				// a surplus payload is not dropped here: its destructor could
+				// panic, which would end this loop with locks still held
+				std::mem::forget(e);
+			}
 		}
 	}
 	if let Some(e) = panic {
